@@ -8,5 +8,6 @@ F = ['C39-rotation-mixes-local-clock']
 def jobs(tier):
     out = [Job('ticks-1-1', 'kx.cpp', 'h_c39_rotation', [1, 1], reach=['compared'], snippets=SN, findings=F, bounds='one tick per end'),
            Job('ticks-1-0', 'kx.cpp', 'h_c39_rotation', [1, 0], reach=['compared'], snippets=SN, findings=F, bounds='one end ticks once')]
+    out += [Job('schedule-rehandshake%d' % r, 'kx.cpp', 'h_c39_schedule', [r], reach=['compared'], snippets=SN, findings=F, bounds='handshake%s, one tick per end, tick timestamps from 3 s before to 8188 s after the latest registration' % (', re-handshake' if r else '')) for r in (0, 1)]
     if tier == 'thorough': out.append(Job('ticks-2-2', 'kx.cpp', 'h_c39_rotation', [2, 2], reach=['compared'], snippets=SN, findings=F, bounds='two ticks per end'))
     return out
